@@ -5,6 +5,7 @@ from vlib import cli, core
 ID = "C18"
 NEEDS_CLI = True
 NEEDS_SHIM = True
+THOROUGH_ROUNDS = 2
 RULE = ("real binary `new --vanity-prefix P`: (a) single-threaded (-j 0) under the getentropy shim with an explicit entropy stream, compared with the Lean model of the "
         "search (first candidate of the stream whose selected account matches): all 16 single digits in both cases, 2-digit prefixes in lower/upper/mixed case, "
         "with/without vanity password / account index / hd path, lengths 12/15/24; (b) multi-threaded (-j 1,2,16 and default) with real entropy, prefixes of 1..3 digits, repeated "
